@@ -124,6 +124,16 @@ CLAIMED = {
         "design_ref": "DESIGN.md §8 C02",
         "technique": "Lean 4 theorems (coverage of redirect atoms, R3, tool-target loop) + T0 operator/sink obligations + T1 correspondence in config mode + real-bash/real-tool file-tree diff (T2)",
     },
+    "C04": {
+        "text": "Proof (Lean 4): (a) for every argument vector, bash's lexer (specified independently as shellWords over the quoting sub-language) reads bash_join(ts) back as exactly ts (quote_roundtrip, for every sound alnum predicate and "
+        "for Python's isalnum via T0's Unicode table), and the first word is never an assignment prefix (first_word_is_command); (b) a handler's delegate answer is the whole verdict: builtinVerdict = analyze(inner text), and a launcher that runs "
+        "something never takes the generic help/version shortcut (delegate_verdict, no_help_shortcut_for_launchers); (c) pure wrappers give exactly the wrapped command's verdict (pure_wrapper_exact + skip_* lemmas incl. timeout -s/-k, nice -n); "
+        "(d) Lean models of shell/env/xargs/find/fd/arch/caffeinate/script classify and docker/kubectl exec extraction: the delegated text is the re-quoting of a suffix of the command line (nothing dropped/reordered/invented), a shell's -c string is "
+        "delegated verbatim, find delegates every -exec/-execdir clause (find_all_clauses vs the independent execClauses spec), kubectl exec delegates exactly the words after the first --. Not proved: that the skipped option prefix is what the real tool "
+        "treats as options - validated by running every approved wrapper form under the real env/xargs/find/timeout/nice/nohup/sh in a jail (T2). Handlers uv/tar/fzf/docker-kubectl dispatch remain oracles (monotonicity search only).",
+        "design_ref": "DESIGN.md §8 C04",
+        "technique": "Lean 4 theorems (lexer round trip by induction, handler models, delegate = verdict) + T0 flag tables + T1 correspondence (bash_quote, 8 handler classify models, analyzer) + monotone-verdict search + real-tool jail (T2)",
+    },
 }
 
 PENDING_REASON = "check not built yet in this round (DESIGN.md §10 build order); no technique other than Lean proof + correspondence is substituted"
